@@ -92,6 +92,15 @@ CHECKS = {
  "C33": ("cyphermon", "exploration", "differential monitor: limited vs unlimited run of generated queries under limits set around the true sizes; emitted-row counter hook for bounded extra work; huge-bound watchdog for the soft timeout",
          "Held on the generated (query, options) pairs: a limited run returned exactly the unlimited result or a ResourceLimitExceeded error; after a row-limit trip at most limit+1 rows had been emitted; effectively infinite queries stopped within the bound after the soft timeout.",
          "Only 'never stops' is decided by the clock.", "DESIGN.md §4.4 C33"),
+ "C13": ("cyphermon", "exploration", "differential monitor through the C API: script with a constructed failing statement vs the same script without it, auto-commit and explicit-transaction modes, uid-keyed content comparison",
+         "Held on the generated scripts: a statement failing at a generated row (runtime type errors, refused deletes, compile errors) left the final content equal to the run without it, in ndb_execute_write and inside ndb_begin_write/ndb_txn_query/ndb_txn_commit.",
+         "A constructed statement that does not fail is not judged.", "DESIGN.md §4.4 C13"),
+ "C14": ("cyphermon", "exploration", "invariant monitor after every statement of generated create/delete histories: endpoint liveness in both traversal directions (API and Cypher), out/in symmetry, refusal of non-DETACH deletes judged against a harness-side reference",
+         "Held on the generated histories: no read returned a relationship with a missing endpoint; deletes of connected nodes without DETACH were refused, including relationships created earlier in the same statement or explicit transaction.",
+         "Refusal is judged only where the reference is certain.", "DESIGN.md §4.4 C14"),
+ "C24": ("cyphermon", "exploration", "differential monitor through the C API: generated dependency scripts in one explicit transaction vs the same statements as consecutive auto-commit statements, uid-keyed content comparison",
+         "On the current tree this property is violated for 8 of the 9 generated dependency kinds (recorded known finding); the check keeps watching the kind that holds and reports any difference outside the recorded cause.",
+         "The sequential auto-commit run is the reference.", "DESIGN.md §4.4 C24"),
 }
 
 checks = []
